@@ -21,16 +21,22 @@ func NewQueryAuthorizer(c *Client) *QueryAuthorizer {
 
 // AuthorizeQuery authorizes u to execute q on database.
 // Database can be "" for queries that do not require a database.
-// If no user is provided it will return an error unless the query's first statement is to create
-// a root user.
+// If no user exists yet it will return an error unless the query only creates root users.
 func (a *QueryAuthorizer) AuthorizeQuery(u User, q *influxql.Query, database string) (query.FineAuthorizer, error) {
 	// Special case if no users exist.
 	if n := a.Client.UserCount(); n == 0 {
 		// Ensure there is at least one statement.
 		if len(q.Statements) > 0 {
-			// First statement in the query must create a user with admin privilege.
-			cu, ok := q.Statements[0].(*influxql.CreateUserStatement)
-			if ok && cu.Admin {
+			// Nobody is authenticated yet: every statement in the query must
+			// create a user with admin privilege.
+			allowed := true
+			for _, stmt := range q.Statements {
+				if cu, ok := stmt.(*influxql.CreateUserStatement); !ok || !cu.Admin {
+					allowed = false
+					break
+				}
+			}
+			if allowed {
 				return query.OpenAuthorizer, nil
 			}
 		}
